@@ -24,7 +24,9 @@ import (
 // exactly one parameter of the matcher.
 
 func c01ListConsumers(c *eng.Ctx) map[*ssa.Function]map[int]bool {
-	sl := &eng.Slicer{W: c.W, Depth: 2}
+	// WithUp: the strip may sit in a per-entry helper (`value, inverted := splitRule(rules[i])`);
+	// the entry it is applied to is then traced into the call sites of the helper
+	sl := (&eng.Slicer{W: c.W, Depth: 2}).WithUp()
 	out := map[*ssa.Function]map[int]bool{}
 	funcs := c.W.FuncsOf(pkgV1alpha1)
 	mark := func(f *ssa.Function, i int) bool {
@@ -58,15 +60,21 @@ func c01ListConsumers(c *eng.Ctx) map[*ssa.Function]map[int]bool {
 			if src == nil {
 				continue
 			}
-			for i, p := range top.Params {
+			// the list parameters (of the function itself, or of a caller of the per-entry helper
+			// the strip sits in) whose elements the stripped string is taken from
+			sl.Walk(src, func(n eng.Node) bool {
+				p, isP := n.V.(*ssa.Parameter)
+				if !isP {
+					return true
+				}
 				if _, isSlice := p.Type().Underlying().(*types.Slice); !isSlice {
-					continue
+					return true
 				}
-				pp := p
-				if sl.DerivesFrom(src, func(x ssa.Value) bool { return x == ssa.Value(pp) }) {
-					mark(top, i)
+				if g := p.Parent(); g != nil && g.Parent() == nil && g.Pkg == top.Pkg {
+					mark(g, eng.ParamIndex(p))
 				}
-			}
+				return true
+			})
 		}
 	}
 	for changed := true; changed; {
@@ -165,35 +173,59 @@ func c01R10(c *eng.Ctx) {
 		return
 	}
 	obj := sync.Params[1]
-	var stores []ssa.CallInstruction
-	for _, ci := range eng.Calls(sync) {
-		if !eng.MethodNameIs(ci, "Store") {
-			continue
-		}
-		if !eng.FieldAddrOf(eng.Receiver(ci), pkgClusters+".ClusterInfo", "currentDispatchPolicies") {
-			continue
-		}
-		stores = append(stores, ci)
+	samePkg := c01SamePkg(sync)
+	// the store may have been moved into a same-package helper of Sync (`c.publish(cluster.Spec)`):
+	// it is looked for in every function Sync's body is spread over and related to Sync's own
+	// parameter through the calling context
+	type site struct {
+		call ssa.CallInstruction
+		ctx  *eng.CallCtx
 	}
-	if len(stores) != 1 {
-		c.Fail("R10", sync, "one store of the policy list", sync.Pos(), fmt.Sprintf("found %d stores to currentDispatchPolicies in Sync", len(stores)))
+	var sites []site
+	distinct := map[ssa.CallInstruction]bool{}
+	for _, ctx := range eng.DownCtxs(sync, samePkg, eng.LiftDepth) {
+		for _, ci := range eng.Calls(ctx.Fn) {
+			if !eng.MethodNameIs(ci, "Store") {
+				continue
+			}
+			if !eng.FieldAddrOf(eng.Receiver(ci), pkgClusters+".ClusterInfo", "currentDispatchPolicies") {
+				continue
+			}
+			sites = append(sites, site{ci, ctx})
+			distinct[ci] = true
+		}
+	}
+	if len(distinct) != 1 {
+		c.Fail("R10", sync, "one store of the policy list", sync.Pos(), fmt.Sprintf("found %d stores to currentDispatchPolicies in Sync", len(distinct)))
 		return
 	}
-	st := stores[0]
+	st := sites[0].call
 	// the stored value is the object's Spec.DispatchPolicies, unfiltered
-	arg := eng.Args(st)[0]
-	for {
-		if mi, ok := arg.(*ssa.MakeInterface); ok {
-			arg = mi.X
-			continue
+	okVal := true
+	got := ""
+	for _, s := range sites {
+		arg := eng.Args(s.call)[0]
+		for {
+			if mi, ok := arg.(*ssa.MakeInterface); ok {
+				arg = mi.X
+				continue
+			}
+			break
 		}
-		break
+		root, path, rctx := eng.ResolvePathIn(arg, s.ctx)
+		if !(root == ssa.Value(obj) && rctx != nil && rctx.Fn == sync && len(path) >= 2 && path[len(path)-1] == "DispatchPolicies" && path[len(path)-2] == "Spec") {
+			okVal = false
+		}
+		got = eng.PathString(arg)
 	}
-	root, path := eng.AccessPath(arg)
-	c.Check("R10", sync, "stored list is object.Spec.DispatchPolicies", st.Pos(),
-		root == ssa.Value(obj) && len(path) >= 2 && path[len(path)-1] == "DispatchPolicies" && path[len(path)-2] == "Spec",
-		"the list published for routing must be exactly the policy list of the synced object (got "+eng.PathString(arg)+")")
+	c.Check("R10", sync, "stored list is object.Spec.DispatchPolicies", st.Pos(), okVal,
+		"the list published for routing must be exactly the policy list of the synced object (got "+got+")")
 	isStore := func(i ssa.Instruction) bool { return i == st.(ssa.Instruction) }
+	// the name of the object: a value read from object.…Name, also inside a predicate helper the
+	// test was moved into (its parameter is then bound to the object at every call site)
+	isObj := func(v ssa.Value) bool {
+		return v == ssa.Value(obj) || c.W.ResolveUp(v) == ssa.Value(obj)
+	}
 	nameTest := func(r eng.Rel) bool {
 		if r.Op != token.NEQ {
 			return false
@@ -203,62 +235,69 @@ func c01R10(c *eng.Ctx) {
 		fromName := func(v ssa.Value) bool {
 			return sl.DerivesFrom(v, func(x ssa.Value) bool {
 				rt, p := eng.AccessPath(x)
-				return rt == ssa.Value(obj) && len(p) > 0 && p[len(p)-1] == "Name"
+				return rt != nil && isObj(rt) && len(p) > 0 && p[len(p)-1] == "Name"
 			})
 		}
 		return (isCluster(r.X) && fromName(r.Y)) || (isCluster(r.Y) && fromName(r.X))
 	}
 	k := 0
-	for _, b := range sync.Blocks {
-		if b == sync.Recover {
-			continue
-		}
-		ret, ok := b.Instrs[len(b.Instrs)-1].(*ssa.Return)
-		if !ok {
-			continue
-		}
+	for _, ret := range c01VirtualReturns(sync, eng.LiftDepth) {
+		f := ret.Parent()
 		res := eng.ReturnResults(ret)
 		if len(res) != 1 {
 			continue
 		}
-		if !eng.IsNilConst(res[0]) {
-			// an error value or a phi: every nil-carrying incoming edge is handled through the path query below
-			if _, isPhi := res[0].(*ssa.Phi); !isPhi {
-				continue
-			}
+		phi, isPhi := res[0].(*ssa.Phi)
+		if !eng.IsNilConst(res[0]) && !isPhi && eng.ProvablyNonNil(res[0], ret) {
+			continue // an error value
 		}
 		k++
-		skips := eng.ReachFromEntry(sync, eng.PathQuery{
-			Target: func(i ssa.Instruction) bool { return i == ssa.Instruction(ret) },
-			Avoid:  isStore,
-		}) != nil
-		if !skips {
+		// behind: every path to the return executes the store (in this function, in a helper
+		// that always stores, or before every call of the helper the return sits in)
+		if eng.AlwaysBefore(f, ret, isStore) {
 			c.Pass("R10", sync, fmt.Sprintf("success return#%d lies behind the store", k), ret.Pos(), "")
 			continue
 		}
-		if _, isPhi := res[0].(*ssa.Phi); isPhi {
+		if _, isConst := res[0].(*ssa.Const); !isConst && !isPhi {
+			// `return err` with an error that may be nil: success is the case err == nil; on the
+			// paths on which the comparisons of err with nil say so the store must have run
+			facts := eng.NilFacts(f, res[0], true)
+			px := eng.LiftMust(isStore)
+			behind := len(facts) > 0 && eng.FactReachFromEntry(f, eng.FactQuery{
+				Assume: facts,
+				Target: func(i ssa.Instruction, _ eng.KnownFn) bool { return i == ssa.Instruction(ret) },
+				Avoid:  func(i ssa.Instruction) bool { return i != ssa.Instruction(ret) && px(i) },
+			}) == nil
+			c.Check("R10", sync, fmt.Sprintf("success return#%d lies behind the store", k), ret.Pos(), behind || eng.GuardedBy(ret, nameTest),
+				"Sync hands on an error that may be nil on a path that does not publish the object's policy list")
+			continue
+		}
+		detail := "Sync reports success on a path that does not publish the object's policy list and is not the refusal of another cluster's object: routing keeps deciding on a stale list"
+		if isPhi {
 			// a merged return: only nil-carrying edges matter
-			phi := res[0].(*ssa.Phi)
 			bad := false
 			for i, e := range phi.Edges {
-				if !eng.IsNilConst(e) {
+				if !eng.IsNilConst(e) || i >= len(phi.Block().Preds) {
+					if _, isC := e.(*ssa.Const); !isC {
+						if _, isP := e.(*ssa.Phi); isP {
+							bad = true // nested merge: not followed
+						}
+					}
 					continue
 				}
 				pred := phi.Block().Preds[i]
-				reach := eng.ReachFromEntry(sync, eng.PathQuery{
-					Target: func(ins ssa.Instruction) bool { return ins.Block() == pred && ins == pred.Instrs[len(pred.Instrs)-1] },
-					Avoid:  isStore,
-				}) != nil
-				if reach && !eng.GuardedBy(pred.Instrs[len(pred.Instrs)-1], nameTest) {
+				last := pred.Instrs[len(pred.Instrs)-1]
+				if eng.AlwaysBefore(f, last, isStore) {
+					continue
+				}
+				if !c01EdgeHolds(c01Edge{pred, phi.Block()}, nameTest) {
 					bad = true
 				}
 			}
-			c.Check("R10", sync, fmt.Sprintf("success return#%d lies behind the store", k), ret.Pos(), !bad,
-				"Sync reports success on a path that does not publish the object's policy list and is not the refusal of another cluster's object: routing keeps deciding on a stale list")
+			c.Check("R10", sync, fmt.Sprintf("success return#%d lies behind the store", k), ret.Pos(), !bad, detail)
 			continue
 		}
-		c.Check("R10", sync, fmt.Sprintf("success return#%d lies behind the store", k), ret.Pos(), eng.GuardedBy(ret, nameTest),
-			"Sync reports success on a path that does not publish the object's policy list and is not the refusal of another cluster's object: routing keeps deciding on a stale list")
+		c.Check("R10", sync, fmt.Sprintf("success return#%d lies behind the store", k), ret.Pos(), eng.GuardedBy(ret, nameTest), detail)
 	}
 	if k == 0 {
 		c.Fail("R10", sync, "success returns", sync.Pos(), "no nil return found in Sync")
